@@ -290,8 +290,11 @@ def carried(fmt, s, ref=None):
                 add(("atom%d.Biso" % i, float(a.Bisoequiv), ("f", 4)))
             else:
                 add(("atom%d.occupancy" % i, float(a.occupancy), ("f", 4)))
+                # an atom re-read as isotropic re-derives its off-diagonal terms from the rounded U11
+                # and the rounded cell: one unit plus the cell-rounding effect for those
+                derived = (s is not ref) and not a.anisotropy
                 for k, v in enumerate(u6(a)):
-                    add(("atom%d.U%d" % (i, k), v, ("f", 8)))
+                    add(("atom%d.U%d" % (i, k), v, ("f", 8, 2e-7 * abs(float(a.Uisoequiv))) if (derived and k > 0) else ("f", 8)))
     elif fmt == "pdb":
         add(("title", s.title.rstrip(), ("s",)))
         default = tuple(float(v) for v in ref.lattice.abcABG()) == (1.0, 1.0, 1.0, 90.0, 90.0, 90.0)
@@ -372,6 +375,9 @@ def close(kind, v0, v1, units=0.5):
         return False
     u = unit_of(kind, v0)
     slack = u * 1e-6 + 1e-12 * abs(v0) + 1e-300
+    if len(kind) > 2:      # derived quantity: one unit of the last place plus a stated absolute term
+        units = max(units, 1.0)
+        slack += kind[2]
     d = abs(v1 - v0)
     if kind[0] == "m":
         d = abs((v1 - v0 + 0.5) % 1.0 - 0.5)
@@ -495,7 +501,9 @@ def compare_fields(fmt, what, f0, f1, units=0.5):
         n0 = sum(1 for x in f0 if x[0].endswith(".element"))
         n1 = sum(1 for x in f1 if x[0].endswith(".element"))
         return ("%s:atom-count" % fmt, "%s: %s: %d atoms became %d" % (fmt, what, n0, n1))
-    for (name, v0, kind), (_, v1, _) in zip(f0, f1):
+    for (name, v0, kind), (_, v1, kind1) in zip(f0, f1):
+        if len(kind1) > len(kind):
+            kind = kind1
         if not close(kind, v0, v1, units):
             field = re.sub(r"^atom\d+\.", "", name)
             field = re.sub(r"\d+$", "", field)
@@ -505,9 +513,11 @@ def compare_fields(fmt, what, f0, f1, units=0.5):
 
 
 def oracle(fmt, s):
-    """Evaluate the property statement on structure `s`.  Returns (None, info) when it holds, else
-    ((key, what), info)."""
-    info = {}
+    """Evaluate the property statement on structure `s` (real code only).
+
+    Returns (None, info) when it holds, else ((key, what), info).  `info` keeps the texts and the
+    re-read structures of the trips that succeeded (used by the correspondence)."""
+    info = {"texts": [], "strus": []}
     try:
         r = trips(fmt, s, 3)
     except TripFailure as e:
@@ -527,13 +537,643 @@ def oracle(fmt, s):
     # (b) from the second trip on nothing changes: text fixed point, structure fixed point
     k2, k3 = tokens(fmt, t2), tokens(fmt, t3)
     if k2 != k3:
-        return ("%s:drift" % fmt, "%s: text still changes on the third write: %s" % (
+        return ("%s:drift" % fmt, "%s: the text still changes on the third write: %s" % (
             fmt, tokens_close(k2, k3, 0.0))), info
     bad = compare_fields(fmt, "second round trip", carried(fmt, s1), carried(fmt, s2, ref=s1), units=1e-3)
     if bad:
         return (bad[0] + ":second-trip", bad[1]), info
-    # (c) the second text differs from the first by at most one unit of the last place (quantities
-    #     the writer derives from rounded data), never in its record structure
+    if fmt == "xcfg":
+        msg = xcfg_positions(fmt, s1, s2, t2)
+        if msg:
+            return ("xcfg:xyz:second-trip", "xcfg: second round trip: " + msg), info
     info["t2_equals_t1"] = canon_text(fmt, t1) == canon_text(fmt, t2)
-    info["t3_equals_t2"] = canon_text(fmt, t2) == canon_text(fmt, t3)
+    info["t2_close_t1"] = tokens_close(tokens(fmt, t1), tokens(fmt, t2), 1.0) is None
     return None, info
+
+
+# ------------------------------------------------------------------------------------------
+# the format range (Python mirror of the Lean `range_f`; used by the generator and to decide
+# whether an oracle failure is inside the property)
+# ------------------------------------------------------------------------------------------
+
+def _graph(e):
+    return len(e) > 0 and all(33 <= ord(c) <= 126 for c in e)
+
+
+def _isfloat(t):
+    try:
+        float(t)
+        return True
+    except ValueError:
+        return False
+
+
+def in_range(fmt, s):
+    """None when the structure is inside the representable range of the format, else the reason."""
+    title = s.title
+    if "\n" in title or "\r" in title:
+        return "title with a line break"
+    els = [a.element for a in s]
+    if fmt == "rawxyz":
+        if all(e == "" for e in els):
+            return None
+        for e in els:
+            if not _graph(e) or _isfloat(e) or e == "#":
+                return "element %r is not a plain token" % e
+        return None
+    for e in els:
+        if not _graph(e):
+            return "element %r is not a single printable token" % e
+    if fmt in ("discus", "pdffit"):
+        for e in els:
+            if "," in e or e[0] == "#":
+                return "element %r contains a separator" % e
+    if fmt == "pdb":
+        import numpy
+
+        for i, a in enumerate(s):
+            if len(a.element) > 2:
+                return "element %r wider than the 2 columns" % a.element
+            if len(a.label or a.element) > 4:
+                return "atom name wider than 4 columns"
+            if (a.label or "") != (a.label or "").strip() or " " in (a.label or ""):
+                return "atom name with blanks"
+            rc = a.xyz_cartn
+            if len("%8.3f" % rc[0]) > 8 or len("%7.3f" % rc[1]) > 7 or len("%7.3f" % rc[2]) > 7:
+                return "coordinate wider than its columns"
+            if len("%6.2f" % a.occupancy) > 6 or len("%6.2f" % a.Bisoequiv) > 6:
+                return "occupancy or B wider than 6 columns"
+            if any(len("%6i" % v) > 6 for v in numpy.around(1e4 * numpy.array(u6(a)))):
+                return "ANISOU term wider than its columns"
+        lat = s.lattice
+        if len("%8.3f" % lat.a) > 8 or len("%9.3f" % lat.b) > 9 or len("%9.3f" % lat.c) > 9:
+            return "cell length wider than the CRYST1 columns"
+        if len(s) > 99998:
+            return "serial number wider than 5 columns"
+    if fmt == "xcfg" and len(s) == 0:
+        return "XCFG cannot hold an empty structure (the writer says so)"
+    return None
+
+
+# documented, confirmed defects inside the range: (key, predicate)
+def known_defect(fmt, s):
+    if fmt == "xyz" and len(s) == 0 and s.title.strip() == "":
+        return "xyz:empty-blank-title"
+    if fmt == "cif" and len(s) == 0:
+        return "cif:empty-structure"
+    return None
+
+
+# ------------------------------------------------------------------------------------------
+# model side: documents shipped to the Lean driver
+# ------------------------------------------------------------------------------------------
+
+MODEL_FORMATS = ["xyz", "rawxyz", "discus", "pdffit", "pdb"]
+
+
+def enc(t):
+    return "-" if t == "" else ",".join(str(ord(c)) for c in t)
+
+
+def dec(w):
+    return "" if w == "-" else "".join(chr(int(x)) for x in w.split(","))
+
+
+def _v3(v):
+    return [frac(v[0]), frac(v[1]), frac(v[2])]
+
+
+def doc_fields(fmt, s, read_side=False):
+    """The quantities `P_fmt.toLines` prints, read off the structure through the public API, as a
+    list of (name, value): str, int or float.  `read_side`: describe a structure the reader
+    produced (PDB: an ANISOU record shows as the anisotropy flag)."""
+    import numpy
+
+    f = []
+    add = lambda n, v: f.append((n, v))  # noqa: E731
+    if fmt in ("xyz", "rawxyz"):
+        if fmt == "xyz":
+            add("title", s.title)
+        add("natoms", len(s))
+        for i, a in enumerate(s):
+            rc = a.xyz_cartn
+            add("atom%d.element" % i, a.element)
+            for k in range(3):
+                add("atom%d.cartn%d" % (i, k), float(rc[k]))
+    elif fmt in ("discus", "pdffit"):
+        pf = pdffit_of(s)
+        lat = s.lattice
+        add("title", s.title)
+        if fmt == "pdffit":
+            for k in ("scale", "delta2", "delta1", "sratio", "rcut"):
+                add(k, float(pf[k]))
+        add("spcgr", pf["spcgr"])
+        add("spdiameter", float(pf.get("spdiameter", 0.0)))
+        add("stepcut", float(pf.get("stepcut", 0.0)))
+        cell = lat.abcABG() if fmt == "discus" else (lat.a, lat.b, lat.c, lat.alpha, lat.beta, lat.gamma)
+        for k in range(6):
+            add("cell%d" % k, float(cell[k]))
+        if fmt == "pdffit":
+            for k in range(6):
+                add("dcell%d" % k, float(pf["dcell"][k]))
+        add("natoms", len(s))
+        zero3 = numpy.zeros(3)
+        zero33 = numpy.zeros((3, 3))
+        for i, a in enumerate(s):
+            add("atom%d.element" % i, a.element)
+            for k in range(3):
+                add("atom%d.xyz%d" % (i, k), float(a.xyz[k]))
+            if fmt == "discus":
+                add("atom%d.Biso" % i, float(a.Bisoequiv))
+            else:
+                ad = a.__dict__
+                add("atom%d.occupancy" % i, float(a.occupancy))
+                sg = ad.get("sigxyz", zero3)
+                for k in range(3):
+                    add("atom%d.sigxyz%d" % (i, k), float(sg[k]))
+                add("atom%d.sigo" % i, float(ad.get("sigo", 0.0)))
+                U = a.U
+                sU = ad.get("sigU", zero33)
+                for nm, M in (("U", U), ("sigU", sU)):
+                    for k in range(3):
+                        add("atom%d.%s%d%d" % (i, nm, k, k), float(M[k][k]))
+                    if nm == "U":
+                        pass
+                # order on the wire: Uii, sigUii, Uij, sigUij
+                for nm, M in (("U", U), ("sigU", sU)):
+                    for (p_, q_) in ((0, 1), (0, 2), (1, 2)):
+                        add("atom%d.%s%d%d" % (i, nm, p_, q_), float(M[p_][q_]))
+    elif fmt == "pdb":
+        lat = s.lattice
+        latpar = (lat.a, lat.b, lat.c, lat.alpha, lat.beta, lat.gamma)
+        add("title", s.title)
+        if read_side:
+            # the reader leaves the default lattice when there is no CRYST1 record
+            has_cell = latpar != (1.0, 1.0, 1.0, 90.0, 90.0, 90.0)
+        else:
+            has_cell = latpar != (1.0, 1.0, 1.0, 90.0, 90.0, 90.0)
+        add("cell?", "some" if has_cell else "none")
+        if has_cell:
+            for k in range(6):
+                add("cell%d" % k, float(latpar[k]))
+        add("natoms", len(s))
+        for i, a in enumerate(s):
+            add("atom%d.name" % i, a.label or a.element)
+            add("atom%d.element" % i, a.element)
+            rc = a.xyz_cartn
+            for k in range(3):
+                add("atom%d.cartn%d" % (i, k), float(rc[k]))
+            add("atom%d.occupancy" % i, float(a.occupancy))
+            add("atom%d.Biso" % i, float(a.Bisoequiv))
+            has_aniso = bool(a.anisotropy) if read_side else not uiso_like(a)
+            add("atom%d.aniso?" % i, "some" if has_aniso else "none")
+            if has_aniso:
+                for k, v in enumerate(numpy.around(1e4 * numpy.array(u6(a)))):
+                    add("atom%d.A%d" % (i, k), int(v))
+    else:
+        raise KeyError(fmt)
+    return f
+
+
+def doc_words(fmt, s):
+    w = []
+    for n, v in doc_fields(fmt, s):
+        if n == "natoms":
+            if fmt not in ("xyz", "rawxyz"):
+                w.append(str(v))
+        elif n.endswith("?"):
+            w.append(v)
+        elif isinstance(v, str):
+            w.append(enc(v))
+        elif isinstance(v, int):
+            w.append(str(v))
+        else:
+            w.append(frac(v))
+    return w
+
+
+def parse_model_doc(fmt, out, template):
+    """Decode a document printed by the driver against the field names of `template` (a
+    doc_fields list of a structure with the same number of atoms): list of (name, value)."""
+    if not out.startswith("ok"):
+        return out
+    ws = out.split(" ")[1:]
+    res = []
+    if fmt in ("xyz", "rawxyz"):
+        if fmt == "xyz":
+            res.append(("title", dec(ws[0])))
+            ws = ws[1:]
+        n = int(ws[0])
+        res.append(("natoms", n))
+        ws = ws[1:]
+        for i in range(n):
+            e, x, y, z = ws[4 * i:4 * i + 4]
+            res.append(("atom%d.element" % i, dec(e)))
+            for k, v in enumerate((x, y, z)):
+                res.append(("atom%d.cartn%d" % (i, k), Fraction(v)))
+        return res
+    if fmt == "pdb":
+        it = iter(ws)
+        res.append(("title", dec(next(it))))
+        c = next(it)
+        res.append(("cell?", c))
+        if c == "some":
+            for k in range(6):
+                res.append(("cell%d" % k, Fraction(next(it))))
+        n = int(next(it))
+        res.append(("natoms", n))
+        for i in range(n):
+            res.append(("atom%d.name" % i, dec(next(it))))
+            res.append(("atom%d.element" % i, dec(next(it))))
+            for k in range(3):
+                res.append(("atom%d.cartn%d" % (i, k), Fraction(next(it))))
+            res.append(("atom%d.occupancy" % i, Fraction(next(it))))
+            res.append(("atom%d.Biso" % i, Fraction(next(it))))
+            c = next(it)
+            res.append(("atom%d.aniso?" % i, c))
+            if c == "some":
+                for k in range(6):
+                    res.append(("atom%d.A%d" % (i, k), int(next(it))))
+        return res
+    # generic: the wire order is the order of doc_fields
+    natoms_pos = [i for i, (n, _) in enumerate(template) if n == "natoms"][0]
+    n = int(ws[natoms_pos])
+    names = [nm for nm, _ in template[:natoms_pos + 1]]
+    per_atom = [nm.split(".", 1)[1] for nm, _ in template if nm.startswith("atom0.")]
+    if not per_atom:
+        per_atom = PER_ATOM[fmt]
+    for i in range(n):
+        names += ["atom%d.%s" % (i, x) for x in per_atom]
+    if len(names) != len(ws):
+        return "model printed %d words, expected %d" % (len(ws), len(names))
+    kinds = {nm: isinstance(v, str) for nm, v in template}
+    for nm, w in zip(names, ws):
+        base = re.sub(r"^atom\d+\.", "atom0.", nm)
+        is_str = kinds.get(nm, kinds.get(base, base.endswith("element")))
+        if nm == "natoms":
+            res.append((nm, int(w)))
+        elif is_str:
+            res.append((nm, dec(w)))
+        else:
+            res.append((nm, Fraction(w)))
+    return res
+
+
+PER_ATOM = {
+    "discus": ["element", "xyz0", "xyz1", "xyz2", "Biso"],
+    "pdffit": ["element", "xyz0", "xyz1", "xyz2", "occupancy", "sigxyz0", "sigxyz1", "sigxyz2", "sigo",
+               "U00", "U11", "U22", "sigU00", "sigU11", "sigU22", "U01", "U02", "U12", "sigU01", "sigU02", "sigU12"],
+}
+
+
+def real_doc(fmt, s):
+    """The same document read off a real (re-read) structure."""
+    return doc_fields(fmt, s, read_side=True)
+
+
+NEGZERO = re.compile(r"-(0(\.0*)?(e[-+]?\d+)?)$")
+
+
+def norm_tok(t):
+    m = NEGZERO.match(t)
+    return m.group(1) if m else t
+
+
+def text_lines(t):
+    """`tostring` output -> the list `toLines` returned."""
+    assert t.endswith("\n")
+    return t[:-1].split("\n")
+
+
+def diff_lines(fmt, real, model):
+    """Token-level comparison of the real writer's lines with the model's lines."""
+    real = [DATE_RE.sub(r"\1DATE", ln) for ln in real] if fmt == "cif" else real
+    model = [DATE_RE.sub(r"\1DATE", ln) for ln in model] if fmt == "cif" else model
+    if real == [""] and model == []:
+        return None
+    if len(real) != len(model):
+        return "the writer produced %d lines, the model %d" % (len(real), len(model))
+    for i, (a, b) in enumerate(zip(real, model)):
+        if a == b:
+            continue
+        if fmt == "pdb":
+            # fixed columns: compare the lines blank-padded, field contents are column slices
+            if a.rstrip() == b.rstrip():
+                continue
+            ta, tb = [norm_tok(x) for x in a.split()], [norm_tok(x) for x in b.split()]
+            if ta == tb and len(a.rstrip()) == len(b.rstrip()):
+                continue
+            return "line %d: writer %r, model %r" % (i + 1, a, b)
+        ta, tb = [norm_tok(x) for x in a.split()], [norm_tok(x) for x in b.split()]
+        if ta != tb:
+            return "line %d: writer %r, model %r" % (i + 1, a, b)
+    return None
+
+
+def diff_docs(fmt, model_doc, real, stru=None, reltol=1e-12):
+    """Model's reading of the real text against the real re-read structure."""
+    if isinstance(model_doc, str):
+        return "the model reader says %s on text the real reader accepts" % model_doc
+    if [n for n, _ in model_doc] != [n for n, _ in real]:
+        return "different fields: model %d, real %d" % (len(model_doc), len(real))
+    for (n, mv), (_, rv) in zip(model_doc, real):
+        if isinstance(mv, str) or isinstance(mv, int):
+            if mv != rv:
+                return "%s: model %r, real %r" % (n, mv, rv)
+            continue
+        tol = reltol * max(1.0, abs(rv))
+        m = re.match(r"atom(\d+)\.U(\d)(\d)$", n)
+        if fmt == "pdffit" and m and stru is not None and not stru[int(m.group(1))].anisotropy and m.group(2, 3) != ("0", "0"):
+            # an atom read as isotropic re-derives these terms from U11 and the cell
+            tol += 1.0e-8 + 2e-7 * abs(float(stru[int(m.group(1))].Uisoequiv))
+        if fmt == "pdb":
+            m2 = re.match(r"atom(\d+)\.", n)
+            if n.endswith(".Biso"):
+                if stru is not None and stru[int(m2.group(1))].anisotropy:
+                    continue          # B of an atom with ANISOU is re-derived from the tensor
+                tol += 1e-12 * max(1.0, abs(rv))
+            if ".cartn" in n:
+                tol += 1e-9 * max(1.0, abs(rv))      # Cartesian -> fractional -> Cartesian in the rounded cell
+        if fmt == "discus" and n.endswith(".Biso"):
+            tol += 1e-12 * max(1.0, abs(rv))      # B -> U -> B through 8 pi^2
+        if not math.isfinite(rv) or abs(Fraction(rv) - mv) > Fraction(tol):
+            return "%s: model %s, real %r" % (n, float(mv), rv)
+    return None
+
+
+# ------------------------------------------------------------------------------------------
+# shrinking a failing structure specification
+# ------------------------------------------------------------------------------------------
+
+def shrink(fmt, spec, fails, budget=60):
+    """Greedy minimisation: each atom alone / removed, each field reset, while `fails(spec)`."""
+    import copy
+
+    cur = copy.deepcopy(spec)
+
+    def attempt(cand):
+        nonlocal cur, budget
+        if budget <= 0:
+            return False
+        budget -= 1
+        try:
+            if fails(cand):
+                cur = cand
+                return True
+        except Exception:  # noqa: BLE001
+            pass
+        return False
+
+    # each atom alone
+    for i in range(len(cur["atoms"])):
+        c = copy.deepcopy(cur)
+        c["atoms"] = [cur["atoms"][i]]
+        if attempt(c):
+            break
+    changed = True
+    while changed and budget > 0:
+        changed = False
+        for i in range(len(cur["atoms"]) - 1, -1, -1):
+            c = copy.deepcopy(cur)
+            del c["atoms"][i]
+            if attempt(c):
+                changed = True
+    simple = [("title", ""), ("cls", "Structure"), ("pdffit", None)]
+    for k, v in simple:
+        if cur.get(k) not in (v, None):
+            c = copy.deepcopy(cur)
+            c[k] = v
+            attempt(c)
+    for cell in ([1.0, 1.0, 1.0, 90.0, 90.0, 90.0], [10.0, 10.0, 10.0, 90.0, 90.0, 90.0],
+                 [10.0, 10.0, 10.0, 90.0, 100.0, 90.0]):
+        c = copy.deepcopy(cur)
+        c["cell"] = [hx(v) for v in cell]
+        if attempt(c):
+            break
+    for i in range(len(cur["atoms"])):
+        for k, v in (("adp", ["zero"]), ("occ", hx(1.0)), ("label", ""), ("el", "C")):
+            if cur["atoms"][i].get(k, v) != v:
+                c = copy.deepcopy(cur)
+                c["atoms"][i][k] = v
+                attempt(c)
+        for j in range(3):
+            for v in (0.0, 0.5, 0.25):
+                if fx(cur["atoms"][i]["xyz"][j]) != v:
+                    c = copy.deepcopy(cur)
+                    c["atoms"][i]["xyz"][j] = hx(v)
+                    if attempt(c):
+                        break
+    return cur
+
+
+def describe(spec):
+    """Human-readable one-line description of a specification (for reports)."""
+    cell = [round(fx(v), 6) for v in spec["cell"]]
+    ats = []
+    for a in spec["atoms"]:
+        adp = a["adp"]
+        if adp[0] == "zero":
+            u = "U=0"
+        elif adp[0] in ("iso", "flagiso"):
+            u = "%s=%.6g" % ("Uiso" if adp[0] == "iso" else "Uiso(anisotropy flag set)", fx(adp[1]))
+        else:
+            u = "U=%s" % [float("%.6g" % fx(v)) for v in adp[1]]
+        ats.append("%s xyz=%s occ=%.6g %s%s" % (a["el"], [float("%.9g" % fx(v)) for v in a["xyz"]], fx(a["occ"]), u,
+                                               (" label=%r" % a["label"]) if a.get("label") else ""))
+    return "%s(title=%r, cell=%s, atoms=[%s]%s)" % (spec.get("cls", "Structure"), spec["title"], cell, "; ".join(ats),
+                                                    (", pdffit=%r" % {k: (v if k == "spcgr" else "…") for k, v in spec["pdffit"].items()}) if spec.get("pdffit") else "")
+
+
+# ------------------------------------------------------------------------------------------
+# the check
+# ------------------------------------------------------------------------------------------
+
+def spec_fails(fmt, key=None):
+    """Predicate for the shrinker: the structure is inside the format's range and the oracle fails
+    (with the same key when one is given, so that shrinking does not wander to another failure)."""
+    def f(spec):
+        s = build(spec)
+        if in_range(fmt, s) is not None:
+            return False
+        if known_defect(fmt, s) and known_defect(fmt, s) != key:
+            return False
+        bad, _ = oracle(fmt, s)
+        return bad is not None and (key is None or bad[0] == key)
+    return f
+
+
+def gen_cases(ck, n_per_format):
+    cases = []
+    for fmt in FORMATS:
+        k = 0
+        attempts = 0
+        while k < n_per_format and attempts < 20 * n_per_format:
+            attempts += 1
+            spec = gen_spec(ck.rng, fmt)
+            try:
+                s = build(spec)
+            except Exception:  # noqa: BLE001
+                continue
+            if in_range(fmt, s) is not None:
+                continue
+            cases.append((fmt, spec))
+            k += 1
+    return cases
+
+
+def corpus():
+    """Minimised past failures and hand-made boundary structures, run first."""
+    out = []
+    base = {"cls": "Structure", "title": "", "cell": [hx(v) for v in (1, 1, 1, 90, 90, 90)], "atoms": []}
+    for fmt in FORMATS:
+        if fmt != "xcfg":
+            out.append((fmt, dict(base)))                                    # the empty structure
+            out.append((fmt, dict(base, title=" ")))
+        one = dict(base, cell=[hx(v) for v in (10, 10, 10, 90, 90.3, 90)],
+                   atoms=[{"el": "C", "xyz": [hx(0.25)] * 3, "occ": hx(1.0), "adp": ["iso", hx(0.005)]}])
+        out.append((fmt, one))
+        out.append((fmt, dict(one, cell=base["cell"], atoms=[dict(one["atoms"][0], xyz=[hx(0.0)] * 3, adp=["zero"])])))
+    return out
+
+
+def run(ck):
+    ok, linfo = ck.lean_obligations("DS.Props.C04")
+    nper = 150 if ck.tier == "quick" else 5000
+    cases = corpus() + gen_cases(ck, nper)
+    t_or = time.time()
+    results = []
+    stats = {f: {"cases": 0, "oracle_ok": 0, "t2_equals_t1": 0, "t2_close_t1": 0, "known_defect": 0} for f in FORMATS}
+    requests = []     # (case index, kind, trip, line)
+    for ci, (fmt, spec) in enumerate(cases):
+        s = build(spec)
+        rng_reason = in_range(fmt, s)
+        bad, info = oracle(fmt, s)
+        st = stats[fmt]
+        st["cases"] += 1
+        results.append((fmt, spec, s, bad, info, rng_reason))
+        if bad is None:
+            st["oracle_ok"] += 1
+            st["t2_equals_t1"] += bool(info.get("t2_equals_t1"))
+            st["t2_close_t1"] += bool(info.get("t2_close_t1"))
+        if fmt in MODEL_FORMATS:
+            strus = [s] + info["strus"]
+            for k, t in enumerate(info["texts"]):
+                dw = " ".join(doc_words(fmt, strus[k]))
+                sep = " " if dw else ""
+                requests.append((ci, "write", k, "fmt.%s.write%s%s" % (fmt, sep, dw)))
+                requests.append((ci, "trip", k, "fmt.%s.trip%s%s" % (fmt, sep, dw)))
+                requests.append((ci, "quant", k, "fmt.%s.quant%s%s" % (fmt, sep, dw)))
+                requests.append((ci, "repr", k, "fmt.%s.repr%s%s" % (fmt, sep, dw)))
+                requests.append((ci, "parse", k, "fmt.%s.parse %s" % (fmt, " ".join(enc(ln) for ln in ofText(t)))))
+            if not info["texts"]:
+                dw = " ".join(doc_words(fmt, s))
+                sep = " " if dw else ""
+                requests.append((ci, "repr", 0, "fmt.%s.repr%s%s" % (fmt, sep, dw)))
+                requests.append((ci, "trip", 0, "fmt.%s.trip%s%s" % (fmt, sep, dw)))
+    ck.notes.append("oracle: %d structures x 3 trips in %.1fs" % (len(cases), time.time() - t_or))
+    outs = common.driver([r[3] for r in requests]) if requests else []
+    model = {}
+    for (ci, kind, k, _), o in zip(requests, outs):
+        model[(ci, kind, k)] = o
+
+    # ---- verdicts ----
+    nmodel = 0
+    nbyte = 0
+    reported = set()
+    for ci, (fmt, spec, s, bad, info, rng_reason) in enumerate(results):
+        kd = known_defect(fmt, s)
+        if bad is not None:
+            key, what = bad
+            if rng_reason is not None:
+                continue
+            if kd:
+                key = kd
+                stats[fmt]["known_defect"] += 1
+            if key in reported:
+                continue
+            reported.add(key)
+            small = shrink(fmt, spec, spec_fails(fmt, key)) if not kd else spec
+            b2, _ = oracle(fmt, build(small))
+            what2 = b2[1] if b2 else what
+            ck.fail(key, "%s  [minimal structure: %s]" % (what2, describe(small)),
+                    {"kind": "oracle", "format": fmt, "spec": small, "original_spec": spec, "expected": "round trip preserves the carried fields and is a fixed point from the second trip on", "observed": what2})
+            continue
+        if fmt not in MODEL_FORMATS:
+            continue
+        strus = [s] + info["strus"]
+        for k, t in enumerate(info["texts"]):
+            rp = model.get((ci, "repr", k), "")
+            if "repr=true" not in rp:
+                # the model's Repr excludes it although the real trip works: only the documented carve-outs
+                continue
+            nmodel += 1
+            mlines = [dec(w) for w in model[(ci, "write", k)].split(" ")] if model[(ci, "write", k)] != "" else []
+            rlines = text_lines(t)
+            msg = diff_lines(fmt, rlines, mlines)
+            if msg is None and (rlines == mlines or (rlines == [""] and mlines == [])):
+                nbyte += 1
+            if msg is None:
+                rd = real_doc(fmt, strus[k + 1])
+                msg2 = diff_docs(fmt, parse_model_doc(fmt, model[(ci, "parse", k)], rd), rd, stru=strus[k + 1])
+                if msg2:
+                    msg = "reading: " + msg2
+            if msg is None and model[(ci, "trip", k)] != model[(ci, "quant", k)]:
+                msg = "model: parse(write(d)) = %s but quant(d) = %s" % (model[(ci, "trip", k)][:80], model[(ci, "quant", k)][:80])
+            if msg:
+                key = "tie:%s" % fmt
+                if key in reported:
+                    continue
+                reported.add(key)
+                # neighbourhood search with the oracle for a concrete failing input
+                small = shrink(fmt, spec, spec_fails(fmt), budget=40)
+                b2, _ = oracle(fmt, build(small))
+                if b2:
+                    ck.fail(b2[0], "%s  [minimal structure: %s]" % (b2[1], describe(small)),
+                            {"kind": "oracle", "format": fmt, "spec": small, "observed": b2[1]})
+                else:
+                    ck.fail(key, "model and implementation disagree on trip %d (%s): %s" % (k + 1, fmt, msg),
+                            {"kind": "correspondence", "format": fmt, "spec": spec, "trip": k + 1, "observed": msg,
+                             "stream": "fmt.%s.write / fmt.%s.parse" % (fmt, fmt)}, no_failing_input=True)
+    nev = sum(st["cases"] for st in stats.values())
+    ck.coverage["evaluations"] += nev * 3
+    ck.coverage["distinct_nontrivial"] += len({json.dumps(c[1], sort_keys=True) + c[0] for c in cases if c[1]["atoms"]})
+    ck.coverage["traces_validated_against_impl"] += nmodel
+    ck.coverage["rule"] = ("corpus of boundary structures, then per format %d seeded random structures inside the format's "
+                           "representable range (cells: unit/cubic/orthorhombic/hexagonal/monoclinic/rhombohedral/triclinic/very large/"
+                           "very small; 0..9 atoms; zero/isotropic/anisotropic/flag-only ADPs mixed; occupancies 1, partial, 0 and "
+                           "rounding-boundary values; ions; titles incl. blank, padded, long, unicode; coordinates inside/outside the cell, "
+                           "tiny, large, and k+1/2 units of the last printed place +-2 ulp).  Each case = 3 write/read trips on the real code; "
+                           "distinct_nontrivial counts distinct (format, structure) pairs with at least one atom; "
+                           "traces_validated_against_impl counts (structure, trip) pairs whose real text and re-read structure were compared with the Lean model" % nper)
+    ck.coverage["per_format"] = stats
+    ck.coverage["byte_identical_texts"] = nbyte
+    ck.coverage["samples"] = [describe(c[1])[:300] + " -> " + c[0] for c in cases[len(corpus()):len(corpus()) + 3]]
+    ck.assumptions += [
+        "double <-> decimal: Python's % formatting of a double is the correctly rounded (half-even) decimal of its exact value, and float() of a printed decimal is the nearest double (CPython dtoa); the Lean model computes on the exact rationals",
+        "the documents shipped to the model are read off the structure through the public API (a.xyz_cartn, a.Bisoequiv, lattice.abcABG() ...): lattice/ADP conversions inside readers are not part of the text model (C01/C09/C14)",
+        "PyCifRW tokenisation of the written CIF is exercised by the oracle only",
+        "element symbols and free text are restricted to what Repr_f states (printable ASCII elements, one-line titles)",
+    ]
+    if not ok and not ck.violations:
+        ck.fail("lean-build", "Lean obligations of C04 no longer check: %r" % linfo["failed_modules"],
+                {"kind": "proof-obligation", "theorem": linfo["failed_modules"], "errors": linfo["errors"]}, no_failing_input=True)
+
+
+def ofText(t):
+    """`StructureParser.parse`: the lines handed to parseLines."""
+    return t.rstrip("\r\n").split("\n")
+
+
+def replay(path):
+    obj = json.load(open(path))
+    if obj.get("kind") not in ("oracle", "correspondence") or "spec" not in obj:
+        print("replay: nothing executable in", path)
+        return 0
+    fmt = obj["format"]
+    s = build(obj["spec"])
+    bad, _ = oracle(fmt, s)
+    if bad:
+        print("replay: still fails:", bad[1])
+        return 1
+    print("replay: the round trip property holds on this input")
+    return 0
